@@ -299,6 +299,44 @@ def equivariance(R, rng, tier):
             R.fail("roi|to_polygon-exception|%s" % name, "%s.to_polygon() raised %s" % (name, e), None)
 
 
+def rotate_by_sequences(R, rng, tier):
+    """rotate_by accumulates: after steps d1..dk a region answers as the original rotated by d1+...+dk about its centre (also when the
+    accumulated angle is negative or beyond half a turn; polygons have no half-turn symmetry to hide behind)"""
+    from glue.core import roi as G
+    n = 21 if tier == 'quick' else 41
+    seqs = [(0.4,), (-0.3,), (1.0, -1.3), (2.0, 2.0), (0.7,) * 5, (math.pi,), (-2.5, -2.5)]
+    makers = {name: (lambda vx=vx, vy=vy: G.PolygonalROI(list(vx), list(vy))) for name, (vx, vy) in POLYS.items() if name in ('triangle', 'concave-L', 'arrow-closed')}
+    makers['rectangle'] = lambda: G.RectangularROI(0.0, 4.0, 1.0, 2.0)
+    makers['rectangle-tilted'] = lambda: G.RectangularROI(0.0, 4.0, 1.0, 2.0, theta=0.3)
+    makers['ellipse'] = lambda: G.EllipticalROI(2.0, 1.5, 3.0, 1.0, theta=0.2)
+    for name, mk in makers.items():
+        X, Y = grid(-3.5, 8.5, n, rng)
+        r0 = mk()
+        base = np.asarray(r0.contains(X, Y))
+        c = r0.center()
+        for seq in seqs:
+            q = mk()
+            R.count(('rotate-by', name, seq), 'rotate-by')
+            try:
+                for dth in seq:
+                    q.rotate_by(dth)
+                tot = sum(seq)
+                # a point p is inside the rotated region iff p rotated back by the total angle is inside the original one
+                xb, yb = rot(-tot, X - c[0], Y - c[1])
+                want = np.asarray(r0.contains(xb + c[0], yb + c[1]))
+                # points whose answer flips under a tiny perturbation are too close to the boundary to compare
+                near = np.zeros(X.shape, bool)
+                for ex, ey in ((2e-6, 0), (-2e-6, 0), (0, 2e-6), (0, -2e-6)):
+                    near |= np.asarray(r0.contains(xb + c[0] + ex, yb + c[1] + ey)) != want
+                got = np.asarray(q.contains(X, Y))
+                nbad = int(np.sum((got != want) & ~near))
+                ok, det = nbad == 0, "%d of %d points answered differently from the original rotated by the total angle %.4f" % (nbad, X.size, tot)
+            except Exception as e:
+                ok, det = False, "raised %s: %s" % (type(e).__name__, e)
+            if not ok:
+                R.fail("roi|rotate_by|%s" % ('polygon' if name in POLYS else name), "%s after rotate_by%r: %s" % (name, seq, det), None)
+
+
 def projected3d(R, rng, tier):
     from glue.core import roi as G
     n = 1100000          # > the 10**6 chunk limit written in the code: at least two evaluation chunks
@@ -325,6 +363,25 @@ def projected3d(R, rng, tier):
         if nb or got.shape != xs.shape:
             R.fail("roi|Projected3dROI.contains3d|%s" % mname, "projection %s (%d points, %d chunk(s)): %d points classified differently from the explicit projection"
                    % (mname, m, 1 + m // 1000000, nb), None)
+        # the three coordinate arrays need not share a dtype (an integer counter / pixel index as x, float32 columns, ...): every
+        # coordinate is used with its own values
+        k = 6000
+        for dname, (cx, cy, cz) in {'int-x': (lambda a: np.round(a * 3).astype(np.int64), None, None), 'int-z': (None, None, lambda a: np.round(a * 3).astype(np.int32)),
+                                    'float32-x': (lambda a: a.astype(np.float32), None, None), 'float32-y': (None, lambda a: a.astype(np.float32), None),
+                                    'all-int': (lambda a: np.round(a * 3).astype(np.int64),) * 3}.items():
+            xa, ya, za = [(f(a) if f is not None else a) for f, a in zip((cx, cy, cz), (x[:k], y[:k], z[:k]))]
+            gd = p.contains3d(xa, ya, za)
+            hd = M @ np.vstack([xa.astype(float), ya.astype(float), za.astype(float), np.ones(k)])
+            with np.errstate(all='ignore'):
+                sxd, syd = hd[0] / hd[3], hd[1] / hd[3]
+            td = (sxd > -1.0) & (sxd < 1.5) & (syd > -0.5) & (syd < 2.0)
+            tol = 1e-3
+            fard = (np.abs(sxd + 1) > tol) & (np.abs(sxd - 1.5) > tol) & (np.abs(syd + 0.5) > tol) & (np.abs(syd - 2) > tol) & np.isfinite(sxd) & np.isfinite(syd)
+            nbd = int(np.sum((np.asarray(gd) != td) & fard))
+            R.count(('proj-dtype', mname, dname), 'projected-3d')
+            if nbd:
+                R.fail("roi|Projected3dROI.contains3d|dtype|%s" % dname, "projection %s, coordinate dtypes %s/%s/%s: %d of %d points classified differently from the explicit projection of the same values"
+                       % (mname, xa.dtype, ya.dtype, za.dtype, nbd, k), None)
         # shape independence
         g2 = p.contains3d(xs[:9000].reshape(30, 300), ys[:9000].reshape(30, 300), zs[:9000].reshape(30, 300))
         if g2.shape != (30, 300) or not np.array_equal(g2.ravel(), got[:9000]):
@@ -337,15 +394,30 @@ def rng_array(rng, n, k=0):
 
 
 def categorical(R):
+    """membership in a set of labels is exact string equality: values longer or shorter than the selected labels, labels that are prefixes of
+    one another, values given as str arrays of another width, object arrays, lists and categorical arrays"""
     from glue.core import roi as G
-    cats = np.array(['a', 'b', 'c', 'd', 'b', 'a'])
-    for sel in (['a'], ['b', 'd'], [], ['z'], ['d', 'c', 'b', 'a']):
-        r = G.CategoricalROI(sel)
-        got = np.asarray(r.contains(cats, None))
-        exp = np.isin(cats, sel)
-        R.count(('catroi', tuple(sel)), 'categorical')
-        if not np.array_equal(got, exp):
-            R.fail("roi|CategoricalROI.contains", "CategoricalROI(%r).contains(%r) = %s" % (sel, cats.tolist(), got.tolist()), None)
+    from glue.utils.array import categorical_ndarray
+    universes = [np.array(['a', 'b', 'c', 'd', 'b', 'a']),
+                 np.array(['M', 'Male', 'F', 'Fem', 'Ma', '', 'male']),
+                 np.array(['ab', 'abc', 'cd', 'cde', 'a', 'abcd'])]
+    sels = [['a'], ['b', 'd'], [], ['z'], ['d', 'c', 'b', 'a'], ['M', 'F'], ['Male'], ['ab', 'cd'], ['abc'], ['abcd', 'a'], ['']]
+    for cats in universes:
+        forms = {'str-array': cats, 'object-array': cats.astype(object), 'wider-str-array': cats.astype('U12'), '2-d': np.array([cats, cats[::-1]]),
+                 'categorical-array': categorical_ndarray(cats)}
+        for sel in sels:
+            for fname, x in forms.items():
+                r = G.CategoricalROI(sel)
+                R.count(('catroi', tuple(sel), tuple(cats.tolist()), fname), 'categorical')
+                try:
+                    got = np.asarray(r.contains(x, None))
+                except Exception as e:
+                    R.fail("roi|CategoricalROI.contains|exception", "CategoricalROI(%r).contains(%s %r) raised %s: %s" % (sel, fname, cats.tolist(), type(e).__name__, e), None)
+                    continue
+                exp = np.isin(np.asarray(x).astype(str), sel) if len(sel) else np.zeros(np.shape(x), bool)
+                if got.shape != exp.shape or not np.array_equal(got, exp):
+                    R.fail("roi|CategoricalROI.contains", "CategoricalROI(%r).contains(%s %r) = %s, exact label membership is %s"
+                           % (sel, fname, cats.tolist(), got.astype(int).tolist(), exp.astype(int).tolist()), None)
 
 
 def run(tier, seed, R):
@@ -360,6 +432,7 @@ def run(tier, seed, R):
     polygons(R, rng, tier)
     equivariance(R, rng, tier)
     projected3d(R, rng, tier)
+    rotate_by_sequences(R, rng, tier)
     categorical(R)
     for k in list(R.parts):
         pass
